@@ -222,6 +222,43 @@ def component_constraint():
     return res
 
 
+def signal_bounds():
+    """C17.c: a path constraint whose bound is a B-spline parameter (a time-varying reference) is imposed at every (refined) grid
+    point with the bound sampled at that point: `v <= R`, `-R <= (v <= R)`, `v == R` give the rows of `v - R <= 0` etc."""
+    res = []
+    forms = [('ub', lambda v, R: v <= R, lambda v, R: [v - R <= 0]),
+             ('box', lambda v, R: -R <= (v <= 2 * R), lambda v, R: [v - 2 * R <= 0, v + R >= 0]),
+             ('lb-const-ub', lambda v, R: -3 <= (v <= R), lambda v, R: [v - R <= 0, v >= -3]),
+             ('eq', lambda v, R: v == R, lambda v, R: [v - R == 0])]
+    for name, direct, moved in forms:
+        for r in (1, 2):
+            cl = 'C17.c:signal_bound:%s:r%d' % (name, r)
+            try:
+                out = []
+                for variant in (0, 1):
+                    ocp = Ocp(t0=0.5, T=2.0)
+                    p = ocp.state(); v = ocp.state(); a = ocp.control()
+                    ocp.set_der(p, v); ocp.set_der(v, a)
+                    R = ocp.parameter(grid='bspline', order=1); ocp.set_value(R, np.array([1.0, 0.8, 0.7, 0.9, 1.25]))
+                    for c in ([direct(v, R)] if variant == 0 else moved(v, R)): ocp.subject_to(c, refine=r)
+                    ocp.subject_to(ocp.at_t0(p) == 0); ocp.add_objective(ocp.integral(a ** 2, grid='control') + ocp.at_tf(p) ** 2)
+                    ocp.solver('ipopt'); ocp.method(SplineMethod(N=4))
+                    quiet(lambda: ocp._transcribed)
+                    opti, vx, vp = _inputs(ocp)
+                    pv = np.array(opti.debug.value(vp, opti.initial())).reshape(-1)
+                    z = np.linspace(-0.7, 1.1, vx.numel())
+                    F = ca.Function('F', [vx, vp], [opti.f, opti.g, opti.lbg, opti.ubg])
+                    f, g, lb, ub = [np.array(e).reshape(-1) for e in F(z, pv)]
+                    slack = sorted(np.round(np.concatenate([np.abs(g - lb)[lb == ub], (ub - g)[(lb != ub) & np.isfinite(ub)], (g - lb)[(lb != ub) & np.isfinite(lb)]]), 9).tolist())
+                    out.append((float(f[0]), slack))
+                (fa, sa), (fb, sb) = out
+                ok = abs(fa - fb) < 1e-9 and len(sa) == len(sb) and np.allclose(sa, sb, rtol=0, atol=1e-8)
+                res.append((cl, 'ok' if ok else 'mismatch', 'bound as written: %d rows %s; moved into the expression: %d rows %s' % (len(sa), sa[:5], len(sb), sb[:5])))
+            except Exception as e:
+                res.append((cl, 'mismatch', 'a B-spline parameter as the bound of a path constraint cannot be transcribed: %s: %s' % (type(e).__name__, (str(e).splitlines() or [''])[-1][:160])))
+    return res
+
+
 def signals_order():
     """SplineMethod with two B-spline signals declared in the order (parameter, variable): a degree-1 B-spline interpolates
     its coefficients at the breakpoints, so the control-grid samples of the parameter are the values it was given."""
